@@ -208,7 +208,8 @@ class ProgramSession:
             if not isinstance(got, np.ndarray) or got.shape != want.shape:
                 self.fail(f"{when}: stored original {nm} changed shape or type")
             if not normed:
-                if got.dtype != want.dtype or not np.array_equal(got, want):
+                # values, not dtype: a Weaver may keep the series it was given as float64 from the start
+                if not np.array_equal(got, want):
                     self.fail(f"{when}: stored original {nm} changed", detail=dict(before=want.tolist(), after=got.tolist()))
             else:
                 tol = 1e-9 * float(np.max(np.abs(want))) + 1e-300
